@@ -104,6 +104,34 @@ func runDVB(line []byte, rec *recorder) {
 			enc(y, m, d, 0, 0, 0)
 			enc(y, m, d, sod/3600, sod/60%60, sod%60)
 			enc(y, m, d, 23, 59, 59)
+			// the neighbouring days straight afterwards and the day again: the result may not depend on what was encoded before
+			if mjd < 65535 {
+				y2, m2, d2 := civil(mjd + 1)
+				enc(y2, m2, d2, 0, 0, 0)
+			}
+			sod = rg.intn(86400)
+			enc(y, m, d, sod/3600, sod/60%60, sod%60)
+			if mjd > 15079 {
+				y0, m0, d0 := civil(mjd - 1)
+				enc(y0, m0, d0, 23, 59, 59)
+				enc(y, m, d, 0, 0, 0)
+			}
+		}
+	case "enchist": // random walks over neighbouring days and times of day, decodes interleaved
+		for k := 0; k < sc.Hi; k++ {
+			mjd := 15079 + rg.intn(65536-15079)
+			for j := 0; j < 12; j++ {
+				mj := mjd + rg.intn(5) - 2
+				if mj < 15079 || mj > 65535 {
+					continue
+				}
+				y, m, d := civil(mj)
+				sod := []int{0, 1, 43200, 86399, rg.intn(86400)}[rg.intn(5)]
+				enc(y, m, d, sod/3600, sod/60%60, sod%60)
+				if rg.intn(3) == 0 {
+					dec([]byte{byte(mj >> 8), byte(mj), bcd2(sod / 3600), bcd2(sod / 60 % 60), bcd2(sod % 60)})
+				}
+			}
 		}
 	case "enctimes":
 		for _, mjd := range []int{15079, 49273, 51603, 65535} {
